@@ -41,6 +41,8 @@ class Renderer:
             return ast.BinOp(left=self.expr(e[2]), op=PYOPS[e[1]](), right=self.expr(e[3]))
         if k == 'tern':
             return ast.IfExp(test=self.cond(e[1]), body=self.expr(e[2]), orelse=self.expr(e[3]))
+        if k == 'val':
+            return self.cond(e[1])
         raise ValueError(e)
 
     def cond(self, c):
@@ -162,6 +164,8 @@ class Interp:
             return max(self.selfw(e[2]), self.selfw(e[3]))
         if t == 'tern':
             return max(self.selfw(e[2]), self.selfw(e[3]))
+        if t == 'val':
+            return 1
         raise ValueError(e)
 
     @staticmethod
@@ -204,6 +208,8 @@ class Interp:
             return self.chk(r, w)
         if t == 'tern':
             return self.expr(e[2], env, w) if self.cond(e[1], env) else self.expr(e[3], env, w)
+        if t == 'val':
+            return 1 if self.cond(e[1], env) else 0
         raise ValueError(e)
 
     def cond(self, c, env):
